@@ -51,7 +51,7 @@ fn one(case: &Case, fill: u8, stats: &mut Stats) -> Outcome {
 }
 
 pub fn run_case(case: &Case, stats: &mut Stats) -> CaseResult {
-    let mut res = CaseResult { violation: None, harness_error: None, chain: 0, executions: 0, fault_points: 0, failing: None };
+    let mut res = CaseResult { violation: None, harness_error: None, chain: 0, executions: 0, fault_points: 0, failing: None, soft: None };
     let o1 = one(case, case.cfg.fill, stats);
     res.executions += 1;
     res.chain = o1.chain;
